@@ -401,7 +401,11 @@ INFO = {
                    "length are modelled as terms, so len(datain) is a z3 expression); the announced transfer is decoded "
                    "from the emitted CDB by the spec decoder and compared with the buffer lengths by unsat queries; the "
                    "ATA PASS-THROUGH size rules are explored over all T_LENGTH/BYTE_BLOCK/T_TYPE/T_DIR combinations; both "
-                   "real transports run over stub bindings and must pass the same objects and (iSCSI) direction/length.",
+                   "real transports run over stub bindings and must pass the same objects and (iSCSI) direction/length/LUN "
+                   "(LUN and the SG_IO residual count are solver variables). The CDB's PARAMETER LIST LENGTH is compared with "
+                   "len(dataout) for every parameter-list dictionary of C05; after arbitrary device answers to READ CAPACITY / "
+                   "INQUIRY / MODE SENSE the facade's READ/WRITE buffers are still tl x the configured block size; write data "
+                   "given as bytes / bytearray / memoryview slice reaches the binding byte for byte.",
     "functions": ["SCSICommand.__init__ (buffer allocation)", "__init__ of every scsi_cdb_*.py (size computation)",
                   "ATAPassThrough12/16.__init__ size rules", "SCSIDevice.execute", "ISCSIDevice.execute"],
     "bounds": {"sizes": "block size < 2^32, lengths at full field width (products compared as terms)",
